@@ -42,7 +42,7 @@ CLAIMS.update({
                      'by the independent implementation of the tree rule; recipients written in upper-case bech32 (a different string for the same account) are among the leaves. E3: seeded histories of the two real chains with the '
                      'off-chain roles (Trace_Bridge.tla) check Completeness and NoStuckTransfer on every recorded state and end with a canonical drain schedule after which every claimable withdrawal must have been paid.', note=COMMON_NOTE + ' Amounts are abstract units at scale 2^62 (3 units fit 64 bits, 4 units = 2^64).'),
     'C08': dict(text='Solvency (escrow = L2 supply + deposits not yet finalized on L2 + withdrawals not yet paid on L1, per denom), Holdings (users\' combined holdings + value in flight constant) '
-                     'and DrainedOK are TLC invariants of the composed model over deposits (credited and refunded), L2 transfers, withdrawals, relays incl. duplicates and unauthorised relayers, '
+                     'and DrainedOK are TLC invariants, and Flow (value moves only along the bridge\'s edges: in-flight value grows only by an accepted L1 deposit and shrinks only by a processed relay into L2 supply or a recorded withdrawal, L2 supply shrinks only into recorded withdrawals, recorded withdrawals are paid only by accepted claims into the recipient\'s L1 balance) an action property, of the composed model over deposits (credited and refunded), L2 transfers, withdrawals, relays incl. duplicates and unauthorised relayers, '
                      'proposals, a challenge with re-proposal, time advances and claims in any order; every transition is executed on the two real chains in one process, the deposit / withdrawal '
                      'logs being rebuilt from the events the real chains emit, and the full projected state of both chains compared. The liveness half is a TLC temporal check (MC_BridgeLive: under weak fairness of relay, propose, '
                      'time and claim the system is eventually drained with escrow = L2 supply; without fairness TLC finds the expected lasso), bound to the code by E3: every recorded two-chain history (Trace_Bridge.tla) ends with the '
